@@ -53,7 +53,7 @@ class World:
     probe_min_runs = 500
     required_probes = ["coarser_add_accepted_or_refused", "convert_4_3", "convert_3_2", "convert_3_1", "convert_2_0",
                        "convert_1_0", "convert_multi_step", "add_after_conversion", "first_add_sets_resolution",
-                       "container_passthrough", "type_level_add_into_pathways"]
+                       "container_passthrough", "type_level_add_into_pathways", "spectrum_object_view"]
     required_faults = list(FAULT_KINDS)
     components = {
         "real": ["TwoDResponse / TwoDSpectrumBase: _add_data, set_resolution, _convert_resolution, d__data getter/setter "
@@ -265,6 +265,21 @@ class World:
                           "view-equals-ledger-sum",
                           lambda: "after %s: view %r (storage %s) = %s, ledger sum of %d additions = %s"
                           % (what, v, st["S"], _short(got), n, _short(("array", exp))))
+            # the same views handed out as TwoDSpectrum objects
+            for v in served_views():
+                if v[0] not in ("total", "sig"):
+                    continue
+                exp, n = expected(v)
+                if n == 0:
+                    continue
+                try:
+                    sp = resp.get_TwoDSpectrum(dtype=flag_of(v))
+                    got = numpy.array(sp.data, dtype=numpy.complex128)
+                except Exception as e:
+                    raise Violation("spectrum-view-raises", "after %s: get_TwoDSpectrum(%r): %s: %s" % (what, flag_of(v), type(e).__name__, e))
+                check(got.shape == exp.shape and numpy.array_equal(got, exp), "spectrum-view-equals-ledger-sum",
+                      lambda: "after %s: get_TwoDSpectrum(%r) differs from the ledger sum" % (what, flag_of(v)))
+                ctx.probe("spectrum_object_view")
             if st["ledger"]:
                 ad = all_data()
                 check(ad[0] == "dict", "get-all-data", lambda: "after %s: get_all_data() %r" % (what, ad))
